@@ -7,19 +7,24 @@ import (
 )
 
 func (vt *Model) handleMouse(msg vaxis.Mouse) string {
-	if !vt.mode.mouseButtons && !vt.mode.mouseDrag && !vt.mode.mouseMotion && !vt.mode.mouseSGR {
+	// Mode 1006 only selects the encoding of reports; reporting itself is
+	// enabled by 1000, 1002 or 1003
+	if !vt.mode.mouseButtons && !vt.mode.mouseDrag && !vt.mode.mouseMotion {
 		if vt.mode.altScroll && vt.mode.smcup {
 			// Translate wheel motion into arrows up and down
-			// 3x rows
+			// 3x rows. The arrows are encoded as the child's
+			// cursor key mode (DECCKM) asks for
 			if msg.Button == vaxis.MouseWheelUp {
-				vt.pty.WriteString("\x1bOA")
-				vt.pty.WriteString("\x1bOA")
-				vt.pty.WriteString("\x1bOA")
+				up := encodeXterm(vaxis.Key{Keycode: vaxis.KeyUp}, vt.mode.deckpam, vt.mode.decckm)
+				vt.pty.WriteString(up)
+				vt.pty.WriteString(up)
+				vt.pty.WriteString(up)
 			}
 			if msg.Button == vaxis.MouseWheelDown {
-				vt.pty.WriteString("\x1bOB")
-				vt.pty.WriteString("\x1bOB")
-				vt.pty.WriteString("\x1bOB")
+				down := encodeXterm(vaxis.Key{Keycode: vaxis.KeyDown}, vt.mode.deckpam, vt.mode.decckm)
+				vt.pty.WriteString(down)
+				vt.pty.WriteString(down)
+				vt.pty.WriteString(down)
 			}
 		}
 		return ""
@@ -28,8 +33,9 @@ func (vt *Model) handleMouse(msg vaxis.Mouse) string {
 	if !vt.mode.mouseMotion && msg.EventType == vaxis.EventMotion && msg.Button == vaxis.MouseNoButton {
 		return ""
 	}
-	// Return early if we aren't reporting drags
-	if !vt.mode.mouseDrag && msg.EventType == vaxis.EventMotion {
+	// Return early if we aren't reporting drags. Any-event tracking (1003)
+	// includes drags
+	if !vt.mode.mouseDrag && !vt.mode.mouseMotion && msg.EventType == vaxis.EventMotion {
 		return ""
 	}
 
